@@ -22,8 +22,20 @@ import time
 
 VERIF = os.path.dirname(os.path.dirname(os.path.abspath(__file__)))
 REPO = os.environ.get("VERIF_REPO", "/repo")
-BUILD = os.path.join(VERIF, "build")
-COQ = os.path.join(VERIF, "coq")
+# An alternative source tree (VERIF_REPO=/tmp/x/repo: mutation trials) gets its own
+# build root AND its own copy of the Coq tree, so that it never disturbs the
+# shared build of /repo.
+if os.path.realpath(REPO) == "/repo":
+    BUILD = os.path.join(VERIF, "build")
+    COQ = os.path.join(VERIF, "coq")
+else:
+    BUILD = os.path.join(VERIF, "build", "alt-" + hashlib.sha1(os.path.realpath(REPO).encode()).hexdigest()[:10])
+    COQ = os.path.join(BUILD, "coq")
+    os.makedirs(BUILD, exist_ok=True)
+    subprocess.run(["rsync", "-a", "--delete", "--exclude", "gen/*.v", "--exclude", "gen/*.vo", "--exclude", "gen/*.glob",
+                    os.path.join(VERIF, "coq") + "/", COQ + "/"], check=True)
+    os.makedirs(os.path.join(COQ, "gen"), exist_ok=True)
+os.environ["VERIF_BUILD"] = BUILD
 GUARD = "LIBJPEG_TURBO_VERIF"
 
 FORBIDDEN = re.compile(
@@ -198,7 +210,7 @@ class Ctx:
         self.distinct = set()
         self.proof_ok = None
         self.known = load_known(prop)
-        os.makedirs(os.path.join(VERIF, "evidence"), exist_ok=True)
+        os.makedirs(evidence_dir(), exist_ok=True)
         os.makedirs(os.path.join(BUILD, "replay"), exist_ok=True)
 
     # ---------------------------------------------------------------- logging
@@ -435,7 +447,7 @@ class Ctx:
         ev = {"property_id": self.prop, "tier": self.tier, "seed": self.seed, "level": "proof",
               "coverage": self.cov, "assumptions": self.assume, "wall_s": round(time.time() - self.t0, 2),
               "violations": len(self.violations)}
-        with open(os.path.join(VERIF, "evidence", self.prop + ".json"), "w") as f:
+        with open(os.path.join(evidence_dir(), self.prop + ".json"), "w") as f:
             json.dump(ev, f, indent=1, default=repr)
         for sig, text in self.known_hits:
             print("KNOWN-FINDING: property=%s %s" % (self.prop, text), flush=True)
@@ -468,6 +480,11 @@ def parse_assumption_blocks(out):
     if cur is not None:
         blocks.append(cur)
     return blocks
+
+
+def evidence_dir():
+    # evidence of a mutation trial must not overwrite the evidence of /repo
+    return os.path.join(VERIF, "evidence") if BUILD == os.path.join(VERIF, "build") else os.path.join(BUILD, "evidence")
 
 
 class BuildError(Exception):
